@@ -6,7 +6,7 @@ KIND = {'mmap': 0, 'munmap': 1, 'mprotect_rw': 2, 'mprotect_none': 3, 'madv_dont
 
 def jobgen(ctx):
     tier = ctx['tier']
-    variants = [0, 3, 5, 5, 7] if tier == 'quick' else list(range(10)) + [5]
+    variants = [0, 3, 5, 5, 7, 10, 11, 10, 11, 11] if tier == 'quick' else list(range(12)) + [5, 10, 11]
     reps = 1 if tier == 'quick' else 3
     builds = ['REL', 'SEC', 'DBG']
     cov = ctx['cov']; cov['bases'] = []; cov['enumerated_calls'] = 0
@@ -17,7 +17,7 @@ def jobgen(ctx):
     bases += [('c07_threadstart', 0, 50 + i, -1) for i in range(2 if tier == 'quick' else 8)]
     for (bfam, rep, vi, v) in bases:
             for b in builds:
-                if bfam == 'c07_base': sd = (ctx['seed_of'](ctx['seed'], 'c07_base', rep * 100 + vi) // 20) * 20 + v + (10 if (vi % 2) else 0)
+                if bfam == 'c07_base': sd = (ctx['seed_of'](ctx['seed'], 'c07_base', rep * 100 + vi) // 40) * 40 + v + (20 if (vi % 2) else 0)
                 else: sd = ctx['seed_of'](ctx['seed'], bfam, vi)
                 plan = ctx['dump_plan'](ctx['bdir'], b, bfam, sd)
                 if bfam != 'c07_base':
@@ -37,6 +37,24 @@ def jobgen(ctx):
                     calls.append((prog, op, KIND[kind], nth))
                 cov['bases'].append({'build': b, 'seed': sd, 'variant': v, 'os_calls_in_ops': len(calls), 'ops': sum(len(p['ops']) for p in plan['progs'])})
                 cov['enumerated_calls'] += len(calls)
+                # pairs: the first call of two different kinds inside one operation both refused (e.g. the mmap of a fallback and the commit
+                # of arena memory): what one failure path leaves behind is met by the other
+                byop = {}
+                for (prog, op, kind, nth) in calls:
+                    if nth == 0: byop.setdefault((prog, op), []).append(kind)
+                for (prog, op), kinds in byop.items():
+                    ks = sorted(set(kinds))
+                    for i in range(len(ks)):
+                        for j in range(i + 1, len(ks)):
+                            for persistent in (0, 1):
+                                p2 = copy.deepcopy(plan)
+                                fl = p2['progs'][prog]['ops'][op].setdefault('f', [])
+                                fl.append({'kind': ks[i], 'nth': 0, 'err': 12, 'persistent': 0}); fl.append({'kind': ks[j], 'nth': 0, 'err': 12, 'persistent': persistent})
+                                p2['family'] = 'c07_enum2'
+                                path = os.path.join(ctx['tmp'], 'g-%d.json' % n); n += 1
+                                json.dump({'plan': p2}, open(path, 'w'))
+                                cov['enumerated_pairs'] = cov.get('enumerated_pairs', 0) + 1
+                                yield (b, path, 'c07_enum2', sd)
                 for (prog, op, kind, nth) in calls:
                     for persistent in (0, 1):
                         p2 = copy.deepcopy(plan)
